@@ -5,7 +5,8 @@ from . import common, netw, c13
 def run(ctx):
     cfg = "MCNetwork_quick.cfg" if ctx.quick() else "MCNetwork_thorough.cfg"
     res = [("closure-tracking", netw.edge_run(ctx, cfg, "closure of the model network, replayed with state tracking")),
-           ("closure-plain", netw.edge_run(ctx, cfg, "closure of the model network, replayed without state tracking", tracking=False))]
+           # without state tracking channel events change nothing the client knows: the small universe is enough there
+           ("closure-plain", netw.edge_run(ctx, "MCNetwork_quick.cfg", "closure of the (small) model network, replayed without state tracking", tracking=False))]
     ncfg = "MCNetwork_nicks.cfg" if ctx.quick() else "MCNetwork_nicks_t.cfg"
     res.append(("nicks-tracking", netw.edge_run(ctx, ncfg, "closure of the nick-centred universe (requested / refused / forced nicks that are prefixes and extensions of each other and of the own nick), state tracking")))
     res.append(("nicks-plain", netw.edge_run(ctx, ncfg, "closure of the nick-centred universe, no state tracking", tracking=False)))
